@@ -600,7 +600,7 @@ Qed.
 
 Lemma spec_packet_view d : bytes_ok d = true -> f_view d = spec_packet d.
 Proof.
-  intros OK. unfold f_view, spec_packet, sub. rewrite (sf_total d OK), (sf_pl d OK), len_blen.
+  intros OK. unfold f_view, spec_packet, sub. rewrite (sf_total d OK), (sf_pl d OK). change (len d) with (blen d).
   cbn [skipn N.to_nat]. rewrite N.sub_0_r. reflexivity.
 Qed.
 
